@@ -10,6 +10,7 @@ import Driver.C06
 import Driver.C04
 import Driver.C04Oracle
 import Driver.C08
+import Driver.C13
 open Ws.Driver
 
 def dispatch (op : String) (args : List String) (obs : String) : String × String :=
@@ -31,6 +32,8 @@ def dispatch (op : String) (args : List String) (obs : String) : String × Strin
   | "u8" => c07u8 args obs
   | "wr" => c06wr args obs
   | "wm" => c06wm args obs
+  | "msb" => c13msb args obs
+  | "stack" => c13stack args obs
   | "ctl" => c08ctl args obs
   | "cw" => c08cw args obs
   | "rm" => (c04rm args obs, rmOracle args obs)
